@@ -236,6 +236,26 @@ def all_jobs():
     J.append(dict(id='reader_file', src='apps/read_file.cpp', contract='reader_file.c', enforce=mg, roots=[mg], replace=[], cut=[],
                   props=['C13'], pretty='ReadFile::read', canaries=['normal'], unwind=9, bounded_inputs=True,
                   unwind_why='files of at most 6 bytes (every content, position and buffer size)', enums=[], structs=['ReadFile']))
+    # ---- Value::clone: the copy primitive behind assignment, argument binding and Context::clone (C05, C14) ----
+    mg = '_ZNK4bloc5Value5cloneEv'
+    J.append(dict(id='value_clone', src='blocc/value.cpp', contract='value_clone.c', enforce=mg, roots=[mg], replace=[V_CLEAR, V_MOVE_ASSIGN], cut=[V_CLEAR, V_MOVE_ASSIGN],
+                  props=['C01', 'C05', 'C14', 'C17'], pretty='bloc::Value::clone', canaries=['normal'], unwind=3,
+                  unwind_why='Value::deref_value() pointer chase and the recursive clone of a pointee: pointer values are outside the domain (precondition), so neither is entered',
+                  structs=DEFAULT_STRUCTS + [STD_STRING, VEC_CHAR, 'bloc::Imaginary']))
+    mg = '_ZN4bloc14FunctorManager5resetERKS0_'
+    J.append(dict(id='fm_reset', src='blocc/functor_manager.cpp', contract='fm_reset.c', enforce=mg, roots=[mg], replace=[], cut=[],
+                  props=['C01', 'C14'], pretty='bloc::FunctorManager::reset', canaries=['normal'], unwind=5, bounded_inputs=True,
+                  unwind_why='source declaration list of at most 2 functions',
+                  structs=DEFAULT_STRUCTS + [STD_STRING, 'bloc::FunctorManager', 'bloc::FunctorManager::Entry', 'bloc::Functor', 'bloc::Context']))
+    mg = '_ZNK4bloc7Context5cloneEv'
+    J.append(dict(id='ctx_clone', src='blocc/context.cpp', contract='ctx_clone.c', enforce=mg, roots=[mg], replace=[], cut=['_ZN4bloc7ContextC1Eii', '_ZN4bloc7ContextC2Eii'],
+                  props=['C01', 'C14', 'C16'], pretty='bloc::Context::clone', canaries=['normal'], unwind=5, bounded_inputs=True, defines=['JOB_CLONE'],
+                  unwind_why='symbol table of at most 2 slots',
+                  structs=DEFAULT_STRUCTS + [STD_STRING, 'bloc::Context', 'bloc::Context::MemorySlot', 'bloc::Symbol']))
+    mg = '_ZN4bloc7Context10MemorySlotC2ERKS1_'
+    J.append(dict(id='ctx_memoryslot_copy', src='blocc/context.cpp', contract='ctx_clone.c', enforce=mg, roots=[mg], replace=[V_CLONE, V_MOVE_CTOR, V_CLEAR], cut=[V_CLONE, V_MOVE_CTOR, V_CLEAR],
+                  props=['C01', 'C14'], pretty='bloc::Context::MemorySlot::MemorySlot(const MemorySlot&)', canaries=['normal'], defines=['JOB_SLOT'],
+                  structs=DEFAULT_STRUCTS + [STD_STRING, 'bloc::Context', 'bloc::Context::MemorySlot', 'bloc::Symbol']))
     # ---- generic builtin contracts (C01, C05): one job per builtin listed here ----
     for ent in BUILTINS_GENERIC:
         name, cls, nargs = ent[0], ent[1], ent[2]
